@@ -18,6 +18,9 @@
 //!   clone(i)           `MessageStream::clone` / `Proxy::clone` of live handle i
 //!   drop(i)            synchronous drop (→ queued removal task)
 //!   async-drop(i)      `AsyncDrop::async_drop` (streams only)
+//!   two-concurrent-new-streams(R)  two `for_match_rule(R)` calls in flight together (R ∈ {SIG, NOC})
+//!   drop(i)-then-new-stream-at-once  drop a stream and subscribe to its rule again before the
+//!                      queued removal has run
 //!
 //! Oracle (statement only), checked after every operation once the world is quiescent:
 //!   * registered-set-equals-live-rules: {rules with AddMatch−RemoveMatch > 0 at the bus} ==
@@ -137,6 +140,12 @@ enum Op {
     Clone(usize),
     Drop(usize),
     AsyncDrop(usize),
+    /// Two `for_match_rule` calls for the same rule running concurrently (the second starts while
+    /// the first is still waiting for the bus's AddMatch reply).
+    NewPair(usize),
+    /// Drop stream handle i and subscribe to its rule again at once, before the queued removal
+    /// has run.
+    DropThenNew(usize),
 }
 
 fn label(op: &Op) -> String {
@@ -146,6 +155,8 @@ fn label(op: &Op) -> String {
         Op::Clone(i) => format!("clone(h{i})"),
         Op::Drop(i) => format!("drop(h{i})"),
         Op::AsyncDrop(i) => format!("async-drop(h{i})"),
+        Op::NewPair(r) => format!("two-concurrent-new-streams({})", RULE_NAMES[*r]),
+        Op::DropThenNew(i) => format!("drop(h{i})-then-new-stream-at-once"),
     }
 }
 
@@ -156,6 +167,8 @@ fn encode(op: &Op) -> Value {
         Op::Clone(i) => json!(["clone", i]),
         Op::Drop(i) => json!(["drop", i]),
         Op::AsyncDrop(i) => json!(["adrop", i]),
+        Op::NewPair(r) => json!(["pair", r]),
+        Op::DropThenNew(i) => json!(["dropnew", i]),
     }
 }
 
@@ -168,6 +181,8 @@ fn decode(v: &Value) -> Option<Op> {
         "clone" => Op::Clone(a),
         "drop" => Op::Drop(a),
         "adrop" => Op::AsyncDrop(a),
+        "pair" => Op::NewPair(a),
+        "dropnew" => Op::DropThenNew(a),
         _ => return None,
     })
 }
@@ -196,7 +211,8 @@ struct Model {
 impl Model {
     fn valid(&self, op: &Op) -> bool {
         match op {
-            Op::NewMs(_) | Op::NewProxySig => true,
+            Op::NewMs(_) | Op::NewProxySig | Op::NewPair(_) => true,
+            Op::DropThenNew(i) => self.hs.get(*i).map(|h| h.alive && matches!(h.kind, HK::Ms(_))).unwrap_or(false),
             Op::Clone(i) => self
                 .hs
                 .get(*i)
@@ -223,6 +239,15 @@ impl Model {
                 self.hs.push(MH { kind: k, alive: true, cloned: true });
             }
             Op::Drop(i) | Op::AsyncDrop(i) => self.hs[*i].alive = false,
+            Op::NewPair(r) => {
+                self.hs.push(MH { kind: HK::Ms(*r), alive: true, cloned: false });
+                self.hs.push(MH { kind: HK::Ms(*r), alive: true, cloned: false });
+            }
+            Op::DropThenNew(i) => {
+                let k = self.hs[*i].kind;
+                self.hs[*i].alive = false;
+                self.hs.push(MH { kind: k, alive: true, cloned: false });
+            }
         }
     }
     /// Live subscribers of signal rule `r`.
@@ -306,7 +331,7 @@ fn run_history(ops: &[Op], declone: bool) -> HistResult {
         let dadds0 = bus.double_adds.len();
         let mut note = String::new();
         let (h_kind, h_origin) = match op {
-            Op::Clone(i) | Op::Drop(i) | Op::AsyncDrop(i) => (
+            Op::Clone(i) | Op::Drop(i) | Op::AsyncDrop(i) | Op::DropThenNew(i) => (
                 match model.hs[*i].kind {
                     HK::Ms(_) => "stream",
                     HK::Ss => "proxy-signal-stream",
@@ -330,6 +355,59 @@ fn run_history(ops: &[Op], declone: bool) -> HistResult {
                     Some(Err(e)) => {
                         note = format!(" error:{e}");
                         hs.push(RH::Ms(None));
+                        true
+                    }
+                    None => false,
+                }
+            }
+            Op::NewPair(r) => {
+                let (c1, c2) = (conn.clone(), conn.clone());
+                let (r1, r2) = (rule(*r), rule(*r));
+                match fakebus::run(&mut w, &mut bus, "two-new-streams", async move {
+                    futures_lite::future::zip(
+                        async move { MessageStream::for_match_rule(r1, &c1, None).await },
+                        async move { MessageStream::for_match_rule(r2, &c2, None).await },
+                    )
+                    .await
+                }) {
+                    Some((a, b)) => {
+                        for s in [a, b] {
+                            match s {
+                                Ok(s) => hs.push(RH::Ms(Some(s))),
+                                Err(e) => {
+                                    note = format!("{note} error:{e}");
+                                    hs.push(RH::Ms(None))
+                                }
+                            }
+                        }
+                        true
+                    }
+                    None => false,
+                }
+            }
+            Op::DropThenNew(i) => {
+                let r = match model.hs[*i].kind {
+                    HK::Ms(r) => r,
+                    _ => unreachable!(),
+                };
+                if let RH::Ms(s) = &mut hs[*i] {
+                    drop(s.take());
+                }
+                // no pumping in between: the removal queued by the drop has not run yet
+                let c = conn.clone();
+                let rl = rule(r);
+                match fakebus::run(&mut w, &mut bus, "new-stream-right-after-drop", async move {
+                    MessageStream::for_match_rule(rl, &c, None).await
+                }) {
+                    Some(Ok(s)) => {
+                        hs.push(RH::Ms(Some(s)));
+                        fakebus::pump(&mut w, &mut bus);
+                        true
+                    }
+                    Some(Err(e)) => {
+                        note = format!(" error:{e}");
+                        hs.push(RH::Ms(None));
+                        fakebus::pump(&mut w, &mut bus);
                         true
                     }
                     None => false,
@@ -476,6 +554,8 @@ fn run_history(ops: &[Op], declone: bool) -> HistResult {
             Op::Clone(_) => "clone",
             Op::Drop(_) => "drop",
             Op::AsyncDrop(_) => "async-drop",
+            Op::NewPair(_) => "two-concurrent-new-streams",
+            Op::DropThenNew(_) => "drop-then-new-stream-at-once",
         };
         let mut push = |clause: &'static str, kind: &str, r: Option<usize>, detail: String| {
             out.violations.push(StepViolation {
@@ -503,7 +583,15 @@ fn run_history(ops: &[Op], declone: bool) -> HistResult {
             if c.member == "RemoveMatch" && c.answer == "ok" {
                 let r = c.args.first().and_then(|s| rule_id(s));
                 if let Some(r) = r {
-                    if Model::is_signal_rule(r) && model.live(r) >= 1 {
+                    // The stream that `drop-then-new` is creating is not a subscriber before its
+                    // creation returns: if the queued removal wins the race the bus sees
+                    // RemoveMatch and then AddMatch again, which removes nothing that is in use
+                    // (that the rule ends up registered is the registered-set clause's business).
+                    let being_created = match op {
+                        Op::DropThenNew(i) if model.hs[*i].kind == HK::Ms(r) => 1,
+                        _ => 0,
+                    };
+                    if Model::is_signal_rule(r) && model.live(r) - being_created >= 1 {
                         removed_in_use.insert(r);
                         push(
                             "no-rule-removed-while-in-use",
@@ -571,10 +659,12 @@ fn enumerate(depth: usize, n_rules: usize) -> Vec<Vec<Op>> {
         }
         let mut ops: Vec<Op> = (0..n_rules).map(Op::NewMs).collect();
         ops.push(Op::NewProxySig);
+        ops.extend((0..n_rules.min(2)).map(Op::NewPair));
         for i in 0..model.hs.len() {
             ops.push(Op::Clone(i));
             ops.push(Op::Drop(i));
             ops.push(Op::AsyncDrop(i));
+            ops.push(Op::DropThenNew(i));
         }
         for op in ops {
             if model.valid(&op) {
